@@ -94,11 +94,24 @@ func NewPreciseVector(x, y, z float64) PreciseVector {
 
 // Vector returns this precise vector converted to a Vector.
 func (v PreciseVector) Vector() Vector {
-	// The accuracy flag is ignored on these conversions back to float64.
-	x, _ := v.X.Float64()
-	y, _ := v.Y.Float64()
-	z, _ := v.Z.Float64()
-	return Vector{x, y, z}.Normalize()
+	// Scale by a power of two (which does not change the direction) so that
+	// the largest component has a binary exponent of zero. Without this the
+	// components of very short (or very long) precise vectors underflow (or
+	// overflow) in the conversion and the direction is lost.
+	first := true
+	maxExp := 0
+	for _, c := range []*big.Float{v.X, v.Y, v.Z} {
+		if c.Sign() != 0 && (first || c.MantExp(nil) > maxExp) {
+			maxExp = c.MantExp(nil)
+			first = false
+		}
+	}
+	scaled := func(c *big.Float) float64 {
+		// The accuracy flag is ignored on these conversions back to float64.
+		f, _ := new(big.Float).SetMantExp(c, -maxExp).Float64()
+		return f
+	}
+	return Vector{scaled(v.X), scaled(v.Y), scaled(v.Z)}.Normalize()
 }
 
 // Equal reports whether v and ov are equal.
